@@ -28,7 +28,7 @@ def op(draw, kinds=MUTATORS, default=0):
     o = {"op": k, "path": draw(st.lists(st.integers(0, 7), max_size=3)),
          "sel": draw(st.lists(st.integers(0, 9), min_size=4, max_size=4)),
          "val": draw(gen.values(default)), "mode": draw(st.integers(0, 11))}
-    if k in ("extend", "fiber_arith", "assign", "populate"):
+    if k in ("extend", "fiber_arith", "assign", "populate", "elem_assign"):
         o["other"] = draw(st.lists(st.tuples(st.integers(0, 7), gen.values(default)), max_size=4))
     if k == "populate":
         o["plan"] = draw(st.lists(st.sampled_from(["leave", "assign", "assign", "acc", "default", "writethendefault"]),
@@ -301,6 +301,33 @@ class Machine:
         else:
             f.insert(c, o["val"])
         return ("ok", {"present": present})
+
+    def target_path(self, path):
+        """like target() down to a leaf fiber, also returning the coordinates on the way"""
+        f, lvl, prefix = self.root, 0, []
+        for s in list(path) + [0, 0, 0]:
+            if lvl >= self.d - 1 or not f.payloads:
+                break
+            j = s % len(f.payloads)
+            prefix.append(f.coords[j])
+            f = f.payloads[j]
+            lvl += 1
+        return f, lvl, tuple(prefix)
+
+    def op_elem_assign(self, o):
+        """element <<= element: both sides are whole elements taken out of fibers by position (f[pos])"""
+        f, lvl, prefix = self.target_path(o["path"])
+        if lvl < self.d - 1 or not f.coords:
+            return ("skipped", {})
+        src_f = self.leaf_fiber_from(o.get("other", []), lvl) if o["mode"] % 2 else f
+        if not src_f.coords:
+            return ("skipped", {})
+        pos, spos = o["sel"][0] % len(f.coords), o["sel"][1] % len(src_f.coords)
+        dst, src = f[pos], src_f[spos]
+        value = Payload.get(src.payload)
+        dst <<= src
+        return ("ok", {"point": prefix + (f.coords[pos],), "value": value,
+                       "src_point": (prefix + (src_f.coords[spos],)) if src_f is f else None})
 
     def op_fiber_arith(self, o):
         f, lvl = self.target(o["path"] + [0, 0, 0])
